@@ -412,7 +412,7 @@ type pairInfo struct {
 }
 
 // stripConv removes a one-argument conversion such as uint64(x) or time.Duration(x).
-func stripConv(e ast.Expr) ast.Expr {
+func c19StripConv(e ast.Expr) ast.Expr {
 	if c, ok := e.(*ast.CallExpr); ok && len(c.Args) == 1 {
 		switch exprKey(c.Fun) {
 		case "uint64", "int64", "time.Duration":
@@ -510,7 +510,7 @@ func classifyUnmarshal(fd *ast.FuncDecl, embedded map[string]bool, privateCfg ma
 				return pi
 			}
 			d := lhs[len(r)+1:]
-			rhs := stripConv(x.Rhs[0])
+			rhs := c19StripConv(x.Rhs[0])
 			if c, ok := rhs.(*ast.CallExpr); ok && exprKey(c.Fun) == "configToMetadata" && len(c.Args) == 1 {
 				f, ok := cfgMember(exprKey(c.Args[0]), r, pi.cfg, local)
 				if !ok {
@@ -584,7 +584,7 @@ func classifyMarshal(fd *ast.FuncDecl, embedded map[string]bool, privateCfg map[
 				return pi, notes
 			}
 			lhs := exprKey(x.Lhs[0])
-			rhs := stripConv(x.Rhs[0])
+			rhs := c19StripConv(x.Rhs[0])
 			if c, ok := rhs.(*ast.CallExpr); ok && exprKey(c.Fun) == "metadataToConfig" && len(c.Args) == 1 {
 				d := exprKey(c.Args[0])
 				if !strings.HasPrefix(d, r+".") {
